@@ -66,9 +66,15 @@ SHAPES = {
     "cycle5": (5, [(0, 1), (1, 2), (2, 3), (3, 4), (4, 0)]),
     "tailed": (4, [(0, 1), (1, 2), (0, 2), (2, 3)]),
     "star3": (4, [(0, 1), (0, 2), (0, 3)]),
+    # chorded motifs on >= 5 vertices: components of equal size but different shape occur inside them
+    "house": (5, [(0, 1), (1, 2), (2, 3), (3, 4), (4, 0), (1, 4)]),
+    "wheel4": (5, [(0, 1), (0, 2), (0, 3), (0, 4), (1, 2), (2, 3), (3, 4), (4, 1)]),
+    "k4tail": (5, [(0, 1), (0, 2), (0, 3), (1, 2), (1, 3), (2, 3), (3, 4)]),
+    "cycle6chord": (6, [(0, 1), (1, 2), (2, 3), (3, 4), (4, 5), (5, 0), (0, 3)]),
+    "bull": (5, [(0, 1), (1, 2), (0, 2), (1, 3), (2, 4)]),
 }
 TOPO_KEY = {"edge": 2, "path3": 30, "triangle": 3, "cycle4": 40, "diamond": 41, "k4": 4, "cycle5": 50, "tailed": 42,
-            "star3": 43}
+            "star3": 43, "house": 51, "wheel4": 52, "k4tail": 53, "cycle6chord": 60, "bull": 54}
 
 
 def _build(rng, shapes, labels, glue="random", extra_nodes=0, p2=0.3):
@@ -150,7 +156,7 @@ def corpus():
     out.append(dict(c, T=2, phis=[[1, 2], [0, 1], [1, 1], [1, 4], [1, 2]]))
     out.append(dict(c, T=1, phis=[[1, 2], [1, 4], [1, 2]], decoy=True))
     # single motifs
-    for sh in ["edge", "triangle", "diamond", "k4", "cycle5"]:
+    for sh in ["edge", "triangle", "diamond", "k4", "cycle5", "house", "bull"]:
         c = _build(rng, [sh], range(6))
         out.append(dict(c, T=3, phis=[[3, 4], [1, 4], [0, 1]]))
     # chain edge - diamond - triangle - cycle4 with an isolated vertex, T = 1, 2, 3
